@@ -440,6 +440,13 @@ func DictKeysWritten(info *types.Info, root ast.Node, shortPkg, typ string) map[
 			for _, l := range s.Lhs {
 				if m, k, ok := MapIndexKey(info, l); ok && IsNamed(info.TypeOf(m), shortPkg, typ) {
 					out[k] = append(out[k], s)
+				} else if ix, isIx := ast.Unparen(l).(*ast.IndexExpr); isIx && IsNamed(info.TypeOf(ix.X), shortPkg, typ) {
+					// m[key] = v inside a local setter called with constant keys
+					if ks, sites, found := keysViaParam(info, root, ix); found {
+						for i, k := range ks {
+							out[k] = append(out[k], sites[i])
+						}
+					}
 				}
 			}
 		case *ast.CompositeLit:
@@ -483,9 +490,62 @@ func DictKeysRead(info *types.Info, root ast.Node, shortPkg, typ string) map[str
 			if m, k, ok := MapIndexKey(info, e); ok && IsNamed(info.TypeOf(m), shortPkg, typ) {
 				out[k] = append(out[k], e)
 			} else if IsNamed(info.TypeOf(e.X), shortPkg, typ) {
-				nonConst = append(nonConst, e)
+				if ks, sites, found := keysViaParam(info, root, e); found {
+					// d[key] inside a local getter called with constant keys
+					for i, k := range ks {
+						out[k] = append(out[k], sites[i])
+					}
+				} else {
+					nonConst = append(nonConst, e)
+				}
 			}
 		}
+		return true
+	})
+	// reading by visiting the entries: for key, val := range d { switch key { case "K": ... } }
+	// (or key == "K"): the keys read are the constants the key variable is compared with
+	ast.Inspect(root, func(n ast.Node) bool {
+		rs, ok := n.(*ast.RangeStmt)
+		if !ok || rs.Key == nil || !IsNamed(info.TypeOf(rs.X), shortPkg, typ) {
+			return true
+		}
+		kobj := ObjOf(info, rs.Key)
+		if kobj == nil {
+			return true
+		}
+		strConst := func(e ast.Expr) (string, bool) {
+			if tv, has := info.Types[e]; has && tv.Value != nil && tv.Value.Kind() == constant.String {
+				return constant.StringVal(tv.Value), true
+			}
+			return "", false
+		}
+		ast.Inspect(rs.Body, func(m ast.Node) bool {
+			switch x := m.(type) {
+			case *ast.SwitchStmt:
+				if x.Tag != nil && ObjOf(info, x.Tag) == kobj {
+					for _, st := range x.Body.List {
+						if cc, isCC := st.(*ast.CaseClause); isCC {
+							for _, e := range cc.List {
+								if k, isK := strConst(e); isK {
+									out[k] = append(out[k], cc)
+								}
+							}
+						}
+					}
+				}
+			case *ast.BinaryExpr:
+				if x.Op == token.EQL || x.Op == token.NEQ {
+					for _, pr := range [][2]ast.Expr{{x.X, x.Y}, {x.Y, x.X}} {
+						if ObjOf(info, pr[0]) == kobj {
+							if k, isK := strConst(pr[1]); isK {
+								out[k] = append(out[k], x)
+							}
+						}
+					}
+				}
+			}
+			return true
+		})
 		return true
 	})
 	// table-driven reading: d[entry.key] in a loop over a table of keys.  The
@@ -550,4 +610,99 @@ func (p *Program) Src(n ast.Node) string {
 		return "<?>"
 	}
 	return strings.Join(strings.Fields(b.String()), "")
+}
+
+// keysViaParam: for an index expression m[key] whose key is a parameter of a
+// function literal bound to a local of root (set := func(key Name, ...) {
+// m[key] = ... }), the constant strings passed for that parameter at the
+// calls of the local inside root.  ok is false if the key is not such a
+// parameter or some call passes a non-constant.
+func keysViaParam(info *types.Info, root ast.Node, ix *ast.IndexExpr) (keys []string, sites []ast.Node, ok bool) {
+	kobj := ObjOf(info, ix.Index)
+	if kobj == nil {
+		return nil, nil, false
+	}
+	var lit *ast.FuncLit
+	pos := -1
+	ast.Inspect(root, func(n ast.Node) bool {
+		fl, isFL := n.(*ast.FuncLit)
+		if !isFL || fl.Type.Params == nil {
+			return true
+		}
+		i := 0
+		for _, f := range fl.Type.Params.List {
+			if len(f.Names) == 0 {
+				i++
+			}
+			for _, nm := range f.Names {
+				if info.ObjectOf(nm) == kobj {
+					lit, pos = fl, i
+				}
+				i++
+			}
+		}
+		return true
+	})
+	if lit == nil {
+		return nil, nil, false
+	}
+	// the local the literal is bound to
+	var fobj types.Object
+	ast.Inspect(root, func(n ast.Node) bool {
+		switch x := n.(type) {
+		case *ast.AssignStmt:
+			for i, r := range x.Rhs {
+				if ast.Unparen(r) == ast.Expr(lit) && i < len(x.Lhs) && len(x.Lhs) == len(x.Rhs) {
+					fobj = ObjOf(info, x.Lhs[i])
+				}
+			}
+		case *ast.ValueSpec:
+			for i, r := range x.Values {
+				if ast.Unparen(r) == ast.Expr(lit) && i < len(x.Names) {
+					fobj = info.ObjectOf(x.Names[i])
+				}
+			}
+		}
+		return true
+	})
+	if fobj == nil {
+		return nil, nil, false
+	}
+	ok = true
+	ast.Inspect(root, func(n ast.Node) bool {
+		call, isCall := n.(*ast.CallExpr)
+		if !isCall || ObjOf(info, call.Fun) != fobj {
+			return true
+		}
+		if pos >= len(call.Args) {
+			ok = false
+			return true
+		}
+		if k, isK := StringConst(info, call.Args[pos]); isK {
+			keys = append(keys, k)
+			sites = append(sites, call)
+		} else {
+			ok = false
+		}
+		return true
+	})
+	// the local must not escape (be used other than as the callee)
+	uses, calls := 0, 0
+	ast.Inspect(root, func(n ast.Node) bool {
+		switch x := n.(type) {
+		case *ast.Ident:
+			if info.Uses[x] == fobj {
+				uses++
+			}
+		case *ast.CallExpr:
+			if ObjOf(info, x.Fun) == fobj {
+				calls++
+			}
+		}
+		return true
+	})
+	if uses != calls {
+		ok = false
+	}
+	return keys, sites, ok && len(keys) > 0
 }
